@@ -647,8 +647,13 @@ dt_io_unescape(char *s)
 		return;
 	} else if ((p = q = strchr(s, '\\')) != NULL) {
 		do {
-			if (*p != '\\' || !*++p) {
+			if (*p != '\\') {
 				*q++ = *p++;
+			} else if (!*++p) {
+				/* a lone backslash at the end stays,
+				 * and the terminator stays where it is */
+				*q++ = '\\';
+				break;
 			} else if (*p < 'a' || *p > 'v') {
 				*q++ = *p++;
 			} else {
